@@ -206,7 +206,7 @@ Proof.
   unfold insert_doc. intros H Hi.
   destruct d as [ | | | | | | | fs | ]; try (inv_pair H; assumption).
   set (t := match assoc "_id" fs with
-            | Some i => (c, fs, i)
+            | Some i => (c, fs, patch i)
             | None => (mkColl (docs c) (idx c) (forced c) (next_oid c + 1) (now c) (odocs c),
                        fs ++ [("_id", VOid (next_oid c))], VOid (next_oid c))
             end) in H.
@@ -278,10 +278,10 @@ Proof.
     + destruct (expire_if touched c1) as [c2|e] eqn:E2; [ | inv_pair H; assumption ].
       assert (H2 : Inv clk c2) by eauto using expire_if_nd.
       destruct multi; [ eauto | inv_pair H; assumption ].
-    + destruct e; try (inv_pair H; assumption).
-      destruct (expire c1) as [c2|e] eqn:E2; inv_pair H; [ | assumption ].
-      assert (H2 : Inv clk c2) by eauto using expire_nd.
-      apply Inv_with_docs; [ exact H2 | apply store_nd_set; exact (proj1 H2) ].
+    + destruct e; try (inv_pair H; assumption);
+      (destruct (expire c1) as [c2|e] eqn:E2; inv_pair H; [ | assumption ];
+       assert (H2 : Inv clk c2) by eauto using expire_nd;
+       apply Inv_with_docs; [ exact H2 | apply store_nd_set; exact (proj1 H2) ]).
 Qed.
 
 Lemma update_nd pre5 c f u multi upsert c' r :
